@@ -1,4 +1,8 @@
 // one module per property (kept in a separate file so build.rs can enumerate them)
+mod c09;
+mod c12;
 mod c14;
 mod c21;
+mod c29;
 mod selftest;
+mod probe;
